@@ -910,3 +910,36 @@ def facts_at(func, node):
         except AnalysisError:
             pass
     return res
+
+
+def none_def_reaches(f, st, use, name):
+    """Can the definition ``name = None`` (statement st) reach the use
+    without passing a rebinding of name or a branch that refutes
+    "name is None"?"""
+    cfg = cfg_of(f)
+    d = cfg.node_of.get(id(st))
+    u = expr_owner_node(cfg, use)
+    if d is None or u is None:
+        return True
+    refute = {(f'{name} is None', False), (f'{name} is not None', True),
+              (name, True)}
+    seen = {d}
+    work = [d]
+    while work:
+        n = work.pop()
+        for e in n.succ:
+            if e.kind == 'exc':
+                continue
+            if any(fact_key(x, p) in refute for (x, p) in e.facts):
+                continue
+            t = e.dst
+            if t is u:
+                return True
+            if t in seen:
+                continue
+            seen.add(t)
+            bound, _ = stmt_effects(t)
+            if name in bound:
+                continue
+            work.append(t)
+    return False
